@@ -144,6 +144,18 @@ fn main() {
             n += 1; if let Some(m) = check_set_cookie(&d) { if found.len() < 6 { found.push(m) } }
         }}}
     }}}}}
+    // one attribute at a time over a small alphabet (everything else at its default): the text a client reads back is the text
+    // the builder was given -- no normalisation of Path (a trailing '/', doubled '/'), Domain (case, dots) or the value
+    let alpha = ['/', 'a', 'B', '.', '-', '%'];
+    for len in 1..=4usize { for code in 0..alpha.len().pow(len as u32) {
+        let mut c = code; let t: String = (0..len).map(|_| { let x = alpha[c % alpha.len()]; c /= alpha.len(); x }).collect();
+        for which in 0..3 {
+            let (value, domain, path) = match which { 0 => (t.as_str(), "", ""), 1 => ("v", t.as_str(), ""), _ => ("v", "", t.as_str()) };
+            if which == 2 && !t.starts_with('/') { continue; }
+            let d = format!("{}|{}|{}|{}|{}|{}|{}|{}|{}", hex(b"n"), hex(value.as_bytes()), hex(domain.as_bytes()), hex(path.as_bytes()), 2592000, 1, 1, "S", 0);
+            n += 1; if let Some(m) = check_set_cookie(&d) { if found.len() < 6 { found.push(m) } }
+        }
+    } }
     println!("EVALUATED {n}");
     for f in &found { println!("WITNESS {f}"); }
     std::process::exit(if found.is_empty() { 0 } else { 1 });
